@@ -473,7 +473,10 @@ func runShard(job *Job, bin, jw string, env []string, ti, s int, seed int64, rep
 			r.stats = &p
 		}
 	}
-	// rapid fail files
+	// rapid fail files (a failure flagged VERIF-INFRA is a harness/generator problem, never a violation)
+	if strings.Contains(out, "VERIF-INFRA") {
+		return r
+	}
 	filepath.Walk(filepath.Join(sd, "testdata"), func(p string, info os.FileInfo, err error) error {
 		if err == nil && !info.IsDir() && strings.HasSuffix(p, ".fail") {
 			tn := filepath.Base(filepath.Dir(p))
